@@ -70,7 +70,14 @@ def run(ctx):
         "ThriftObject.to_bytes returns the serialisation F' (C10); its length is arbitrary in [0, 2**32)"]
     ctx.trusted += ["z3 sequence theory", "vc.symexec", "assumed file-object contracts (contracts/filemodel.py)"]
     from runtime.harness import import_fastparquet
-    for name, model in C.check(ctx, funcs, timeout):
+    def guarded():
+        from vc.symexec import Unsupported
+        try:
+            yield from C.check(ctx, funcs, timeout)
+        except Unsupported as ex:       # out of reach for this run: undecided, the bounded layer decides
+            ctx.obligation("update_file_custom_metadata.out_of_reach", "writer.update_file_custom_metadata", "unknown", "engine", 0.0,
+                           detail=str(ex), sample=True)
+    for name, model in guarded():
         model = model or {}
         if "new_footer_len" in model:
             import_fastparquet()
